@@ -352,6 +352,15 @@ UploadLoc(repo, id) == S_v2s \o repo \o S_uploads \o B64Encode(id)
 \* back: not empty, valid UTF-8.  For any other ID the request must fail (not panic).
 IdUsable(id) == id # <<>> /\ Utf8Valid(id)
 Min(a, b) == IF a < b THEN a ELSE b
+\* Options.LocationsForDescriptor.  o.locs = "nil": not set; otherwise the function the harness installs
+\* answers, for a descriptor with digest d (whatever its isManifest argument): "one" <<LocURL(d, 1)>>,
+\* "many" <<LocURL(d, 1), LocURL(d, 2)>>, "none" no location, "err" an error.  Where the server would
+\* name itself in Location it names the first location returned instead; every other mandated header
+\* is unchanged; a blob GET is answered with a redirect (307) to it after ResolveBlob, without opening
+\* the blob.  An error of the function fails the request (500).
+S_cdn == <<104, 116, 116, 112, 115, 58, 47, 47, 99, 100, 110, 46, 116, 101, 115, 116, 47>>      \* "https://cdn.test/"
+LocURL(d, i) == S_cdn \o d \o <<ChSlash>> \o Dec(i)
+GivesLoc(o) == o.locs \in {"one", "many"}
 
 \* The items a list handler returns: the backend iterator yields sc.items and then, if
 \* sc.iterr is not "ok", that error.  With a limit n > 0 the handler stops at the (n+1)th
@@ -367,7 +376,7 @@ ListOutcome(sc, n) ==
         reports (a reader serves that many bytes, or the requested part of them);
         id / chunk / wsize: ID(), ChunkSize() and initial Size() of a writer; werr / cerr /
         merr: answers of Write, Close, Commit; items / iterr: what an iterator yields
-   o  = [noref, nosingle, maxpage, omitdig, omitlink]   (ociserver.Options)            *)
+   o  = [noref, nosingle, maxpage, omitdig, omitlink, locs]   (ociserver.Options)      *)
 Handle(a, rq, sc, o) ==
   LET k == a.kind
       repo == a.repo
@@ -381,6 +390,10 @@ Handle(a, rq, sc, o) ==
         ELSE Exact(k, 202, "", "loc" :> H(UploadLoc(repo, sc.id)) @@ "range" :> H(<<48, 45, 48>>) @@ "chunkmin" :> H(Dec(sc.chunk)),
                    0, c, <<Obj("w", 0, 0, <<>>)>>)
       byTag == a.tag # <<>>
+      \* a 201: Location (own or first of LocationsForDescriptor) and Docker-Content-Digest of what the backend reports
+      created(own, extra, c, objs) ==
+        IF o.locs = "err" THEN Failed(k, "uncoded", c, objs)
+        ELSE Exact(k, 201, "", "loc" :> H(IF GivesLoc(o) THEN LocURL(sc.rdig, 1) ELSE own) @@ "dcd" :> H(sc.rdig) @@ extra, 0, c, objs)
   IN
   CASE k = "Ping" -> Exact(k, 200, "", EmptyF, 0, <<>>, <<>>)
     [] k = "BlobHead" ->
@@ -388,14 +401,20 @@ Handle(a, rq, sc, o) ==
          IF ~ok THEN Failed(k, sc.ans, c, <<>>)
          ELSE Exact(k, 200, "", "clen" :> H(Dec(sc.size)) @@ "dcd" :> H(sc.rdig), 0, c, <<>>)
     [] k = "BlobGet" ->
-         LET r == RangeOf(h.range) IN
-         IF r.cls = "none" THEN
-              LET c == <<[Call("GetBlob", repo) EXCEPT !.dig = a.dig]>> IN
+         LET r == RangeOf(h.range)
+             lfd == o.locs # "nil"
+             pre == IF lfd THEN <<[Call("ResolveBlob", repo) EXCEPT !.dig = a.dig]>> ELSE <<>>
+         IN
+         IF lfd /\ ~ok THEN Failed(k, sc.ans, pre, <<>>)
+         ELSE IF lfd /\ o.locs = "err" THEN Failed(k, "uncoded", pre, <<>>)
+         ELSE IF lfd /\ GivesLoc(o) THEN Exact(k, 307, "", "loc" :> H(LocURL(sc.rdig, 1)), -1, pre, <<>>)
+         ELSE IF r.cls = "none" THEN
+              LET c == pre \o <<[Call("GetBlob", repo) EXCEPT !.dig = a.dig]>> IN
               IF ~ok THEN Failed(k, sc.ans, c, <<>>)
               ELSE Exact(k, 200, "", "ctype" :> H(sc.mt) @@ "clen" :> H(Dec(sc.size)) @@ "dcd" :> H(a.dig) @@ "crange" :> NoHdr,
                          Served(sc, sc.size), c, <<RObj(sc, sc.size)>>)
          ELSE IF r.cls = "one" THEN
-              LET c == <<[Call("GetBlobRange", repo) EXCEPT !.dig = a.dig, !.a = r.start, !.b = r.end]>>
+              LET c == pre \o <<[Call("GetBlobRange", repo) EXCEPT !.dig = a.dig, !.a = r.start, !.b = r.end]>>
                   end == IF r.end = -1 \/ r.end > sc.size THEN sc.size ELSE r.end
               IN IF ~ok THEN Failed(k, sc.ans, c, <<>>)
                  ELSE IF r.start > sc.size THEN Exact(k, 416, "UNKNOWN", EmptyF, -1, c, <<Obj("r", 0, 0, <<>>)>>)
@@ -411,11 +430,11 @@ Handle(a, rq, sc, o) ==
          IF o.nosingle THEN startUpload
          ELSE LET c == <<[Call("PushBlob", repo) EXCEPT !.dig = a.dig, !.a = h.cl, !.b = body.n, !.mt = MT_octet]>> IN
               IF ~ok THEN Failed(k, sc.ans, c, <<>>)
-              ELSE Exact(k, 201, "", "loc" :> H(BlobLoc(repo, sc.rdig)) @@ "dcd" :> H(sc.rdig), 0, c, <<>>)
+              ELSE created(BlobLoc(repo, sc.rdig), EmptyF, c, <<>>)
     [] k = "Mount" ->
          LET c == <<[Call("MountBlob", repo) EXCEPT !.dig = a.dig, !.from = a.from]>> IN
          IF ~ok THEN Failed(k, sc.ans, c, <<>>)
-         ELSE Exact(k, 201, "", "loc" :> H(BlobLoc(repo, a.dig)) @@ "dcd" :> H(sc.rdig), 0, c, <<>>)
+         ELSE created(BlobLoc(repo, a.dig), EmptyF, c, <<>>)
     [] k = "UploadInfo" ->
          LET c == <<[Call("PushBlobChunkedResume", repo) EXCEPT !.id = a.id, !.a = -1, !.b = 0]>> IN
          IF ~ok THEN Failed(k, sc.ans, c, <<>>)
@@ -436,7 +455,7 @@ Handle(a, rq, sc, o) ==
                  ELSE Exact(k, 202, "", "loc" :> H(UploadLoc(repo, sc.id)) @@ "range" :> H(RangeStr(0, sc.wsize + written)),
                             0, c, <<Obj("w", written, 0, <<>>)>>)
             ELSE IF sc.merr # "ok" THEN Failed(k, sc.merr, c, <<Obj("w", written, 1, a.dig)>>)
-            ELSE Exact(k, 201, "", "loc" :> H(BlobLoc(repo, sc.rdig)) @@ "dcd" :> H(sc.rdig), 0, c, <<Obj("w", written, 1, a.dig)>>)
+            ELSE created(BlobLoc(repo, sc.rdig), EmptyF, c, <<Obj("w", written, 1, a.dig)>>)
     [] k = "ManifestGet" ->
          LET c == <<IF byTag THEN [Call("GetTag", repo) EXCEPT !.tag = a.tag] ELSE [Call("GetManifest", repo) EXCEPT !.dig = a.dig]>> IN
          IF ~ok THEN Failed(k, sc.ans, c, <<>>)
@@ -451,13 +470,15 @@ Handle(a, rq, sc, o) ==
          LET mt == IF h.ctype = <<>> THEN MT_octet ELSE h.ctype
              parsed == h.ctype \in {MT_manifest, MT_index}         \* the body is read as JSON for its subject
              c == <<[Call("PushManifest", repo) EXCEPT !.tag = a.tag, !.b = body.n, !.sha = body.sha, !.mt = mt]>>
-             hd == "loc" :> H(ManifestLoc(repo, sc.rdig)) @@ "dcd" :> H(sc.rdig)
-                   @@ "subject" :> (IF parsed /\ body.json = "subject" THEN H(body.subj) ELSE NoHdr)
-         IN IF ~byTag /\ a.dig # body.sha THEN (IF HasPrefix(a.dig, S_sha256c) THEN Reject(k, E400) ELSE FreeResp(k))
+             hd == "subject" :> (IF parsed /\ body.json = "subject" THEN H(body.subj) ELSE NoHdr)
+         \* pushed by digest: the digest in the URL must be THE sha256 digest of the body.  Any other
+         \* well-formed digest is refused (DIGEST_INVALID) - also the true sha384 / sha512 digest of the
+         \* body: the handler computes sha256 only (as the code is; see the assumptions of the check)
+         IN IF ~byTag /\ a.dig # body.sha THEN Reject(k, E400)
             ELSE IF parsed /\ body.json = "invalid" THEN Reject(k, AnyErr)
             ELSE IF parsed /\ body.json = "other" THEN FreeResp(k)
             ELSE IF ~ok THEN Failed(k, sc.ans, c, <<>>)
-            ELSE Exact(k, 201, "", hd, 0, c, <<>>)
+            ELSE created(ManifestLoc(repo, sc.rdig), hd, c, <<>>)
     [] k = "ManifestDelete" ->
          LET c == <<IF byTag THEN [Call("DeleteTag", repo) EXCEPT !.tag = a.tag] ELSE [Call("DeleteManifest", repo) EXCEPT !.dig = a.dig]>> IN
          IF ~ok THEN Failed(k, sc.ans, c, <<>>) ELSE Exact(k, 202, "", EmptyF, 0, c, <<>>)
@@ -490,7 +511,7 @@ Respond(rq, sc, o) == RespondSegs(Split(rq.path), rq, sc, o)
 Total(r) == /\ r.kind \in ReqKinds \cup {"reject", "free"}
             /\ r.mode \in {"exact", "reject", "free"}
             /\ r.mode = "reject" => (r.st # {} /\ r.st \subseteq AnyErr)
-            /\ r.mode = "exact" => r.status \in {200, 201, 202, 204, 206} \cup AnyErr
+            /\ r.mode = "exact" => r.status \in {200, 201, 202, 204, 206, 307} \cup AnyErr
 
 StatusAgreesWithCode(r) ==
   r.mode = "exact" => /\ (r.status >= 400) = (r.code # "")
@@ -539,7 +560,7 @@ AllClosed(r, sc) ==
           linkp = [ok, path, last, n], crp = [ok, start, end, total], calls = <<call...>>, objs = <<[k, closes, written, commits, cdig, rfailed]...>>] *)
 Faulted(out) == \E i \in 1..Len(out.objs) : out.objs[i].rfailed       \* a reader failed before its end
 Universal(rq, out) ==
-  /\ out.status \in 200..299 \cup 400..599
+  /\ out.status \in 200..299 \cup {307} \cup 400..599
   /\ out.status >= 400 => (out.err.json /\ out.hdr["ctype"] = H(MT_json))  \* a JSON OCI error body, declared as JSON
   /\ out.err.code \in StdCodes => out.status = StdStatus[out.err.code]    \* status agrees with code
   /\ out.nwh <= 1                                                        \* one status line
